@@ -53,7 +53,7 @@ def source_forms():
     yield "chain", lambda xs: itertools.chain(list(xs)[:1], list(xs)[1:]), True
 
 
-def unit_peek(U):
+def unit_peek(U, prefix="C13"):
     it = Interp()
     maxk = 5 if U.thorough else 4
     for k in range(0, maxk):
@@ -81,7 +81,7 @@ def unit_peek(U):
                 return {"inputs": {"form": form, "len": k, "checklines": nn}, "expected": "peek = first min(n+1,len); iteration yields every item once, in order",
                         "observed": "peeked %d, iterated %d of %d" % (len(peeked), len(got), k), "violates": bad}
             for p in U.explore(run, it):
-                base = "C13.feat_peek[%s,len=%d]" % (form, k)
+                base = "%s.feat_peek[%s,len=%d]" % (prefix, form, k)
                 if p.kind != "return":
                     U.prove(base + ".noraise#p%d" % p.index, "peek raises nothing (got %r)" % (p.value,), p.pc, z3.BoolVal(False), {"n": n}, replay=replay)
                     continue
@@ -266,6 +266,35 @@ def unit_init_modes(U):
             kw = {"both": dict(force_dialect_check=True, dialect=d), "dialect": dict(dialect=d), "peek": dict(checklines=0), "force": dict(force_dialect_check=True)}[mode]
             it.call(IT._BaseIterator.__init__, [self_, xs], kw)
             return self_
+        def replay(m, mode=mode):
+            # GTF-looking features: the inferred dialect must say so, whatever checklines is (0 still inspects one item)
+            mk = lambda i: F.Feature(seqid="c", featuretype="exon", start=i + 1, end=i + 2, attributes={"gene_id": ["g"], "transcript_id": ["t%d" % i]},
+                                     dialect=dict(constants.dialect, fmt="gtf"))
+            from gffutils.parser import _split_keyvals
+            lines = ['c\ts\texon\t%d\t%d\t.\t+\t.\tgene_id "g"; transcript_id "t%d";' % (i + 1, i + 2, i) for i in range(3)]
+            xs = [F.feature_from_line(l) for l in lines]
+            d = {"fmt": "gff3"}
+            try:
+                if mode == "both":
+                    try:
+                        IT.DataIterator(xs, force_dialect_check=True, dialect=d)
+                        return {"inputs": mode, "observed": "no error", "violates": True}
+                    except ValueError:
+                        return {"inputs": mode, "observed": "ValueError", "violates": False}
+                if mode == "dialect":
+                    di = IT.DataIterator(xs, dialect=d)
+                    return {"inputs": mode, "observed": repr(di.dialect)[:80], "violates": di.dialect is not d}
+                if mode == "peek":
+                    obs = []
+                    for cl in (0, 1, 5):
+                        di = IT.DataIterator(list(xs), checklines=cl)
+                        obs.append((cl, di.dialect.get("fmt"), len(di._peek)))
+                    exp = [(0, "gtf", 1), (1, "gtf", 2), (5, "gtf", 3)]
+                    return {"inputs": {"mode": mode, "lines": lines}, "expected": exp, "observed": obs, "violates": obs != exp}
+                di = IT.DataIterator(xs, force_dialect_check=True)
+                return {"inputs": mode, "observed": repr(di.dialect), "violates": di.dialect is not None}
+            except Exception as ex:
+                return {"inputs": mode, "observed": "raised %r" % (ex,), "violates": True}
         for p in U.explore(run, it):
             st = p.ctx.stash
             if mode == "both":
@@ -279,7 +308,7 @@ def unit_init_modes(U):
             else:
                 ok = p.value.dialect is None
             U.prove("C13.init.modes[%s]#p%d" % (mode, p.index), "force_dialect_check with a dialect raises; a supplied dialect is used verbatim without peeking; otherwise dialect = _choose_dialect(peek(checklines))",
-                    [], z3.BoolVal(bool(ok)), {})
+                    [], z3.BoolVal(bool(ok)), {}, replay=replay)
 
 
 def unit_reuse(U):
